@@ -2,9 +2,11 @@
 package main
 
 import (
+	"encoding/json"
 	"flag"
 	"fmt"
 	"os"
+	"strings"
 	"time"
 
 	"verif/harness/chkenum"
@@ -19,6 +21,7 @@ import (
 	"verif/harness/ribhist"
 	"verif/harness/sesshist"
 	"verif/harness/streams"
+	"verif/mc"
 	"verif/report"
 )
 
@@ -93,6 +96,9 @@ func main() {
 		os.Exit(2)
 	}
 	id, tier := flag.Arg(0), flag.Arg(1)
+	if tier == "replay" {
+		os.Exit(replay(id, flag.Arg(2)))
+	}
 	r, ok := runners[id]
 	if !ok {
 		fmt.Printf("ENGINE-ERROR unknown property %s\n", id)
@@ -101,4 +107,67 @@ func main() {
 	rep := report.New(id, tier, r.level)
 	r.run(rep, tier)
 	os.Exit(rep.Finish())
+}
+
+// replay re-executes the case stored in a replay file (written next to a VIOLATION line) and prints a step-by-step
+// account. Histories of the BFS harnesses are replayed step by step; for the other harnesses the check is run
+// again and the recorded signature is looked for.
+func replay(id, path string) int {
+	b, err := os.ReadFile(path)
+	if err != nil {
+		fmt.Println("cannot read replay file:", err)
+		return 2
+	}
+	var rf struct {
+		Property  string
+		Tier      string
+		Signature string
+		What      string
+		Replay    struct {
+			Search   string
+			History  []string
+			Scenario string
+			Schedule []string
+		}
+	}
+	if err := json.Unmarshal(b, &rf); err != nil {
+		fmt.Println("cannot parse replay file:", err)
+		return 2
+	}
+	fmt.Printf("replaying %s  signature=%s\n  recorded: %.300s\n", path, rf.Signature, rf.What)
+	var fails []mc.Fail
+	switch {
+	case rf.Replay.Search != "" && strings.HasPrefix(rf.Replay.Search, "modify-streams") && id != "C06" || strings.HasPrefix(rf.Replay.Search, "faults/"):
+		fails = streams.Replay(id, rf.Tier, rf.Replay.Search, rf.Replay.History)
+	case rf.Replay.Search != "" && strings.HasPrefix(rf.Replay.Search, "modify-streams"):
+		fails = streams.Replay(id, rf.Tier, rf.Replay.Search, rf.Replay.History)
+	case rf.Replay.Search != "" && (strings.HasPrefix(rf.Replay.Search, "rib/") || strings.HasPrefix(rf.Replay.Search, "mixed/") || strings.HasPrefix(rf.Replay.Search, "arrival-orders/") || strings.HasPrefix(rf.Replay.Search, "get-after-every-step")):
+		fails = ribhist.Replay(id, rf.Replay.Search, rf.Replay.History)
+	default:
+		fmt.Println("no step-by-step replay for this harness: running the check again and looking for the signature")
+		rep := report.New(id, rf.Tier, "")
+		runners[id].run(rep, rf.Tier)
+		tmp, _ := os.CreateTemp("", "replay")
+		rep.Dump(tmp.Name())
+		var p report.Partial
+		pb, _ := os.ReadFile(tmp.Name())
+		os.Remove(tmp.Name())
+		json.Unmarshal(pb, &p)
+		for _, v := range p.Violations {
+			if v.Sig == rf.Signature {
+				fmt.Printf("REPRODUCED %s: %.400s\n", v.Sig, v.What)
+				return 1
+			}
+		}
+		fmt.Println("NOT REPRODUCED")
+		return 0
+	}
+	for _, f := range fails {
+		if f.Sig == rf.Signature {
+			fmt.Printf("REPRODUCED %s\n", f.Sig)
+			return 1
+		}
+	}
+	fmt.Println("NOT REPRODUCED")
+	return 0
 }
